@@ -75,7 +75,9 @@ var (
 	gList = []string{"a&", "<b>"}
 )
 
-func globals() native.Declarations {
+// globals returns the globals of one build+run and the number of calls of
+// once per key.
+func globals() (native.Declarations, map[string]int) {
 	s, n, h, list := gS, gN, gH, append([]string{}, gList...)
 	// once(key) is used by the initialisers of package variables: 1 the
 	// first time it is called with a key, 100 times the number of calls after
@@ -88,15 +90,17 @@ func globals() native.Declarations {
 		}
 		return 100 * calls[key]
 	}
-	return native.Declarations{"s": &s, "n": &n, "h": &h, "list": &list, "once": once}
+	return native.Declarations{"s": &s, "n": &n, "h": &h, "list": &list, "once": once}, calls
 }
 
 func (prop) Work(c core.Case) core.Result {
 	var cd caseData
 	c.Decode(&cd)
 	res := core.Result{Status: core.OK, Evals: 2, Counts: map[string]int64{}}
-	a := tmplfiles.BuildRun(tmplfiles.FromStrings(cd.A.Files), cd.A.Root, globals(), nil)
-	b := tmplfiles.BuildRun(tmplfiles.FromStrings(cd.B.Files), cd.B.Root, globals(), nil)
+	ga, callsA := globals()
+	gb, callsB := globals()
+	a := tmplfiles.BuildRun(tmplfiles.FromStrings(cd.A.Files), cd.A.Root, ga, nil)
+	b := tmplfiles.BuildRun(tmplfiles.FromStrings(cd.B.Files), cd.B.Root, gb, nil)
 	describe := func() string {
 		return fmt.Sprintf("\nrelation %s (%s)\nA root %s:\n%sB root %s:\n%s", cd.Rel, cd.Note, cd.A.Root, tmplfiles.FromStrings(cd.A.Files).String(), cd.B.Root, diffFiles(cd))
 	}
@@ -110,6 +114,15 @@ func (prop) Work(c core.Case) core.Result {
 	}
 	if b.Panic != "" {
 		return fail("side B: %s", core.Truncate(b.Panic, 2000))
+	}
+	// invariant of both executions: the initialiser of a package variable of an
+	// imported file runs at most once per run, however many files import it
+	for side, calls := range map[string]map[string]int{"A": callsA, "B": callsB} {
+		for k, n := range calls {
+			if n > 1 {
+				return fail("side %s: the initialiser of package variable %s ran %d times in one run", side, k, n)
+			}
+		}
 	}
 	errOf := func(o tmplfiles.Outcome) string { return o.BuildErr + o.RunErr }
 	if a.Class() != b.Class() {
